@@ -120,7 +120,11 @@ def spline_scenarios(tier, what):
         # blocked loops with remainders, lane-count thresholds (more than 64 lanes, lane counts that are no multiple of 8)
         out.append("spline n=40 bc=NotAKnot extrap=1 seed=3")
         out.append("spline n=36 bc=Individual=Mixed:FirstDeriv:SecondDeriv extrap=1 seed=5")
+        out.append("spline n=24 bc=Periodic extrap=1 seed=2")
+        out.append("spline n=21 lanes=2 bc=Periodic extrap=0 seed=4 gapset=mean")
         if tier == "thorough":
+            out.append("spline n=40 bc=Periodic extrap=1 seed=3")
+            out.append("spline n=70 bc=Periodic extrap=1 seed=1")
             out.append("spline n=70 lanes=2 bc=Natural extrap=0 seed=2")
             out.append("spline n=8 lanes=77 bc=Clamped extrap=1 seed=1")
             out.append("spline n=6 lanes=7x11 bc=NotAKnot extrap=1 seed=4")
